@@ -60,6 +60,12 @@ muts = {
  'M10-empty-query-test-trims': (APQ, 'if rawParams.Query == "" {', 'if strings.TrimSpace(rawParams.Query) == "" {'),
  'M11-lru-add-only-if-absent': (LRU, 'l.lru.Add(key, value)', 'l.lru.ContainsOrAdd(key, value)'),
 }
+muts.update({
+ 'M12-hash-of-trimmed-text': (APQ, 'b := sha256.Sum256([]byte(query))', 'b := sha256.Sum256([]byte(strings.TrimSpace(query)))'),
+ 'M14-lookup-lowercases-hash': (APQ, 'rawParams.Query, ok = a.Cache.Get(ctx, extension.Sha256)', 'rawParams.Query, ok = a.Cache.Get(ctx, strings.ToLower(extension.Sha256))'),
+ 'M15-lru-capacity-plus-one': (LRU, 'lru.New[string, T](size)', 'lru.New[string, T](size + 1)'),
+ 'M16-mapcache-add-keeps-first': (WT+'/graphql/cache.go', 'func (m MapCache[T]) Add(_ context.Context, key string, value T) { m[key] = value }', 'func (m MapCache[T]) Add(_ context.Context, key string, value T) {\n\tif len(m) < 2 {\n\t\tm[key] = value\n\t}\n}'),
+})
 sel = sys.argv[2:] or list(muts)
 tier = sys.argv[1]
 for name in sel:
